@@ -1,7 +1,7 @@
 """Per-property plans: which MC modules, drivers, demand codes and extra legs decide a property."""
 
 NOT_APPLICABLE = {}
-HOOK_COMMITS = ['244a30c']
+HOOK_COMMITS = ['244a30cf57b73351f8a2bb5eb3a70ee79ddc8b99']
 
 COMMON_ASSUMPTIONS = [
     'TLC 1.8 evaluates the specification faithfully; the Json community module parses the ndjson traces '
